@@ -25,6 +25,7 @@ type RunResult struct {
 	HealAt    int // index in Trace of the HealPhase marker (-1: none)
 	SimTicks  int
 	ReadyLog  []uint64
+	ETLog     []int32
 	Final     string
 }
 
@@ -87,6 +88,7 @@ func fill(c *Cluster, res *RunResult) {
 	res.Trace = c.trace
 	res.SimTicks = c.stats.Ticks
 	res.ReadyLog = c.readyLog
+	res.ETLog = c.etLog
 	if c.viol != nil {
 		res.Final += c.DebugState()
 		if rl := c.RaftLog(); len(rl) > 0 {
@@ -142,6 +144,13 @@ func Replay(rc RunConfig, actions []Action, opt Options) *RunResult {
 // randomises map iteration per iteration, so an output that depends on map
 // order differs between the two executions with high probability.
 func DeterminismCheck(first *RunResult, opt Options) *Violation {
+	// The second execution reads different random bytes; the election-timeout
+	// draws of the first one are imposed on it (the statement's "with the same
+	// election-timeout draws"). Any other dependence on randomness, on state
+	// shared between instances in one process, or on map order shows as a
+	// difference.
+	opt.RandSalt = 0x5a17c0de
+	opt.PinET = append(make([]int32, 0, len(first.ETLog)), first.ETLog...)
 	second := Replay(first.Config, first.Trace, opt)
 	a, b := first.ReadyLog, second.ReadyLog
 	n := min(len(a), len(b))
